@@ -363,6 +363,16 @@ func (r *Repository) ParseReference(reference string) (registry.Reference, error
 		// reference is not a FQDN
 		if index := strings.IndexByte(reference, '@'); index != -1 {
 			// `@` implies *digest*, so drop the *tag* (irrespective of what it is).
+			// A tag never contains a slash: what precedes the `@` is then a
+			// registry/repository path that failed to parse, i.e. a malformed
+			// or foreign fully qualified reference, which must not be silently
+			// re-targeted to this repository.
+			if strings.IndexByte(reference[:index], '/') != -1 {
+				return registry.Reference{}, fmt.Errorf(
+					"%w: %q is not a valid fully qualified reference of %q",
+					errdef.ErrInvalidReference, reference, r.Reference,
+				)
+			}
 			ref.Reference = reference[index+1:]
 			err = ref.ValidateReferenceAsDigest()
 		} else {
